@@ -8,6 +8,7 @@ PROP = "C07"
 LEVEL = "exploration"
 SHARDS = {"quick": 8, "thorough": 16}
 TIMEOUT = {"quick": 900, "thorough": 7200}
+THOROUGH_MULT = 6   # thorough budgets below are multiplied by this (sized for roughly five minutes on 16 cores)
 REQUIRED = {"roundtrip": 1500, "serialize": 300, "version_table": 24, "unknown_version": 100, "from_extended_key": 100}
 ANCHORS = ['bip32:PubKeyNode._parse', 'bip32:PubKeyNode._serialize', 'wallet_utils:Version.parse', 'wallet_utils:Version.__int__', 'base_wallet:BaseWallet.from_extended_key']
 RULE = ("BIP32-valid 78-byte payloads (depth 0 => fp=index=0; depth 1..255 => any fp/index/chain; scalar classes incl. "
